@@ -3,6 +3,7 @@ package props
 import (
 	"fmt"
 	"math/rand"
+	"strings"
 
 	"github.com/grindlemire/go-lucene/verif/core"
 	"github.com/grindlemire/go-lucene/verif/gen"
@@ -41,7 +42,7 @@ func c07Stride(tier string) int {
 }
 
 func (c07) Batches(tier string, seed int64) int {
-	return nBatches(c07Space(tier).Size())/c07Stride(tier) + c07Extra(tier) + 1
+	return nBatches(c07Space(tier).Size())/c07Stride(tier) + c07Extra(tier) + 2
 }
 
 // statement examples: (juxtaposed, explicit)
@@ -92,6 +93,8 @@ func (p c07) RunBatch(ctx *core.Ctx, batch int) {
 			pair := pair
 			ctx.Case(pair[0], func() { c07Compare(ctx, "named", pair[0], pair[1], 1) })
 		}
+	case batch == nEnum+c07Extra(ctx.Tier)+1:
+		c07Long(ctx)
 	default:
 		r := ctx.Rand("chains")
 		leaves := append(append(qt.FullLeaves(), qt.ExtraLeaves()...), qt.HostileLeaves(r, gen.ValueDict(r, 80), 24, true)...)
@@ -148,6 +151,58 @@ func c07Chain(r *rand.Rand, leaves []*qt.Node) *qt.Node {
 		t = qt.Not(t)
 	}
 	return t
+}
+
+// c07Long: chains of up to 4097 operands (sizes around powers of two and around 1000), with all,
+// every other, or a seeded subset of the gaps juxtaposed, against the all-explicit spelling.
+func c07Long(ctx *core.Ctx) {
+	r := ctx.Rand("long")
+	units := []func(i int) string{
+		func(i int) string { return fmt.Sprintf("f%d:v%d", i, i) },
+		func(i int) string { return "a" },
+		func(i int) string { return "-a:b" },
+		func(i int) string { return "+x" },
+		func(i int) string { return "NOT a" },
+		func(i int) string { return "n:[1 TO 2]" },
+		func(i int) string { return "(a OR b)" },
+		func(i int) string { return "a~2" },
+		func(i int) string { return `"p q"^3` },
+		func(i int) string { return "s:(x OR y)" },
+	}
+	sizes := []int{20, 63, 64, 65, 100, 255, 256, 257, 500, 511, 512, 513, 1000, 1023, 1024, 1025, 1026, 1500, 2047, 2048, 2049}
+	if ctx.Thorough() {
+		sizes = append(sizes, 3000, 4095, 4096, 4097, 8193)
+	}
+	for ui, u := range units {
+		for _, n := range sizes {
+			if ui > 1 && n > 1100 && n%2 == 0 && !ctx.Thorough() {
+				continue
+			}
+			for mode := 0; mode < 4; mode++ {
+				var j, e strings.Builder
+				nj := 0
+				for i := 0; i < n; i++ {
+					if i > 0 {
+						sepE, sepJ := " AND ", " AND "
+						if mode == 3 && i%7 == 0 {
+							sepE, sepJ = " OR ", " OR "
+						} else if mode == 0 || mode == 3 || (mode == 1 && i%2 == 0) || (mode == 2 && r.Intn(3) == 0) {
+							sepJ = " "
+							nj++
+						}
+						e.WriteString(sepE)
+						j.WriteString(sepJ)
+					}
+					e.WriteString(u(i))
+					j.WriteString(u(i))
+				}
+				js, es := j.String(), e.String()
+				ctx.Case(fmt.Sprintf("long chain unit %d n=%d mode=%d", ui, n, mode), func() { c07Compare(ctx, "long", js, es, nj) })
+				ctx.Count("long_chains", 1)
+				ctx.Max("longest_chain_operands", float64(n))
+			}
+		}
+	}
 }
 
 func c07Compare(ctx *core.Ctx, style, j, e string, nJux int) {
@@ -263,8 +318,9 @@ func (c07) Finish(res *core.Result, cov map[string]any) []string {
 	reasons := []string{}
 	cov["distinct_nontrivial"] = res.NDistinct("nontrivial")
 	cov["exhaustive"] = true
-	cov["rule"] = "every depth<=2 tree with at least one AND (exhaustive over the leaf alphabet), AND chains of 3-6 prefixed/suffixed operands next to OR/NOT and random deeper trees; for every subset (<= 2^6, sampled beyond) of the AND nodes that may be juxtaposed (left operand text not ending in a bare ~ or ^) the juxtaposed text and the all-explicit text must both fail or parse to DeepEqual trees; the ImplicitAnd hook must fire at least once per written juxtaposition. Non-trivial = distinct juxtaposed text with a juxtaposition whose left operand is not a bare term."
+	cov["rule"] = "every depth<=2 tree with at least one AND (exhaustive over the leaf alphabet), AND chains of 3-6 prefixed/suffixed operands next to OR/NOT, random deeper trees, and chains of 20…2049 (thorough 8193) operands of ten shapes with all / every other / a seeded subset of the gaps juxtaposed; for every subset (<= 2^6, sampled beyond) of the AND nodes that may be juxtaposed (left operand text not ending in a bare ~ or ^) the juxtaposed text and the all-explicit text must both fail or parse to DeepEqual trees; the ImplicitAnd hook must fire at least once per written juxtaposition. Non-trivial = distinct juxtaposed text with a juxtaposition whose left operand is not a bare term."
 	cov["contexts_seen"] = res.NDistinct("contexts")
+	floor(res.Counters["long_chains"] >= 300, &reasons, "long chains %d", res.Counters["long_chains"])
 	floor(res.Counters["both_parse_equal"] >= 1000, &reasons, "agreeing pairs %d", res.Counters["both_parse_equal"])
 	floor(res.NDistinct("contexts") >= 60, &reasons, "left/right operand kind contexts %d < 60", res.NDistinct("contexts"))
 	floor(res.Counters["jux_injected_observed"] >= res.Counters["jux_written"], &reasons, "hook saw %d injections for %d written juxtapositions", res.Counters["jux_injected_observed"], res.Counters["jux_written"])
